@@ -281,14 +281,14 @@ def c08(ctx):
         # the user's future is polled only after it was created in its slot, i.e. in the WaitingForFuture arm
         upolls = [s for s in g.sites.get(p.name, []) if s.kind == 'poll' and s.foreign]
         key = 'SyncFuture::poll|poll-in-arm'
-        st_local = None
         arms = None
         for bb, b in enumerate(p.blocks):
             t = b['term']
-            if t and t['k'] == 'switch':
-                for s in b['stmts']:
-                    if s['k'] == 'assign' and s['rv']['k'] == 'discr' and 'SyncFutureState' in clean_ty(s['rv']['pl']['ty']):
-                        arms = dict((v, tb) for v, tb in t['targets'])
+            if t and t['k'] == 'switch' and not b['cleanup']:
+                for s_ in b['stmts']:
+                    if s_['k'] == 'assign' and s_['rv']['k'] == 'discr' and 'SyncFutureState' in clean_ty(s_['rv']['pl']['ty']) and len(t['targets']) >= 3:
+                        if upolls and dominates(p, bb, upolls[0].bb):
+                            arms = dict((v, tb) for v, tb in t['targets'])
         if len(upolls) != 1 or not arms:
             out.append(undecided(R, key, 'expected one poll of the user future and a match on the SyncFuture state'))
         else:
@@ -519,7 +519,8 @@ def c03_dormant(ctx):
                         m = dict((v, tb) for v, tb in t2['targets'])
                         none_edges.add(m.get('0', t2['otherwise']) if '0' in m else (t2['otherwise'] if '1' in m else None))
         none_edges.discard(None)
-        if flag_sets and all(any(edom(body, ne, x) for ne in none_edges) for x in flag_sets):
+        no_flag_ok = (not flag_sets) and body.must_pass(fetch.t['target'], set(body.exits()), none_edges)
+        if no_flag_ok or (flag_sets and all(any(edom(body, ne, x) for ne in none_edges) for x in flag_sets)):
             out.append(ok(R, key, 'the pool thread stops looking for work only after a fetch that found nothing', fn=body.name))
         else:
             out.append(bad(R, key, 'the pool thread can leave its loop (stay marked busy and never look again) without having found the schedule empty', fn=body.name))
@@ -1243,25 +1244,19 @@ def c16(ctx):
             e = k.expr_of_local(t['discr']['pl']['l'])
             if render(e).endswith('.closed') and 'lock(' in render(e):
                 closed_true.append(t['otherwise'])
+    zero_blocks, one_blocks = set(), set()
+    for bb_, b_ in enumerate(k.blocks):
+        if b_['cleanup']:
+            continue
+        for s_ in b_['stmts']:
+            if s_['k'] == 'assign' and not s_['pl']['p'] and s_['pl']['l'] == 0 and s_['rv']['k'] == 'use' and s_['rv']['op']['k'] == 'const':
+                (zero_blocks if str(s_['rv']['op'].get('val')) == '0' else one_blocks).add(bb_)
+
     def _ret_consts(edge):
-        seen, st_, vals = set(), [edge], set()
-        while st_:
-            x = st_.pop()
-            if x in seen:
-                continue
-            seen.add(x)
-            hit = False
-            for s_ in k.blocks[x]['stmts']:
-                if s_['k'] == 'assign' and not s_['pl']['p'] and s_['pl']['l'] == 0 and s_['rv']['k'] == 'use' and s_['rv']['op']['k'] == 'const':
-                    vals.add(str(s_['rv']['op'].get('val')))
-                    hit = True
-            if not hit:
-                t_ = k.blocks[x]['term']
-                if t_ and t_['k'] in ('goto', 'drop', 'falseedge', 'falseunwind', 'call'):
-                    st_.extend(k.succs(x))
-                elif t_ and t_['k'] in ('switch', 'yield'):
-                    vals.add('?')
-        return vals
+        # every path from the edge to the end of the poll function assigns `false` (and never `true`) to the result
+        if k.must_pass(edge, set(k.exits()), zero_blocks) and not (k.reachable_blocks(edge, avoid=zero_blocks) & one_blocks):
+            return {'0'}
+        return {'?'}
     if len(closed_true) < 2:
         out.append(undecided(R, key, 'expected two tests of `closed` in the producer, found %d' % len(closed_true)))
     elif all(_ret_consts(e_) == {'0'} for e_ in closed_true):
